@@ -114,6 +114,7 @@ def run(prop, seed, budget, ctx):
     from apischema.json_schema import deserialization_schema, serialization_schema, JsonSchemaVersion
     rnd = random.Random(seed * 7919 + sum(map(ord, prop))); pool = Pool(); g = Gen(rnd, pool, None)
     if prop == "C07": g.kinds = g.kinds + ["reqopt", "reqopt", "optenum1"]
+    if prop == "C18": g.kinds = g.kinds + ["falsy_const", "falsy_const", "depreq"]
     g.kinds = g.kinds + ["depreq", "aggregate"]          # dependent_required / aggregate-field classes: outside the Lean model (K skipped), inside the P checks
     n_types, per = {"C06": (250, 8), "C07": (250, 8), "C18": (250, 6)}[prop]
     types = [g.ty(3) for _ in range(n_types * budget)]
@@ -163,14 +164,17 @@ def run(prop, seed, budget, ctx):
             reqs.append({"id": len(reqs), "op": "schema", "ap": ap, "ty": t.lean, "so": so, "data": []})
             meta.append((t, tp, ap, so, real, vals, None))
         else:
-            ver = rnd.choice(["DRAFT_7", "DRAFT_2019_09", "OPEN_API_3_0", "OPEN_API_3_1"])
-            try:
-                real = deserialization_schema(tp, additional_properties=ap, with_schema=False, version=getattr(JsonSchemaVersion, ver))
-                base = deserialization_schema(tp, additional_properties=ap, with_schema=False)
-            except Exception as e: hist["schema-exc:" + type(e).__name__] += 1; continue
+            ver0 = rnd.choice(["DRAFT_7", "DRAFT_2019_09", "OPEN_API_3_0", "OPEN_API_3_1"])
+            # types whose schema has keywords that the rewrites rename (const, dependentRequired): every version
+            vers = ["DRAFT_7", "DRAFT_2019_09", "OPEN_API_3_0", "OPEN_API_3_1"] if ({"literal", "enum", "depreq"} & t.features()) else [ver0]
             data = [d for d in (g.mutate(g.valid(t)) if rnd.random() < 0.5 else g.valid(t) for _ in range(per)) if common_domain(d)]
-            reqs.append({"id": len(reqs), "op": "schema07", "ap": ap, "keeps_prefix_items": False, "ty": t.lean, "data": [py_proto(d) for d in data]})
-            meta.append((t, tp, ap, ver, real, data, base))
+            for ver in vers:
+                try:
+                    real = deserialization_schema(tp, additional_properties=ap, with_schema=False, version=getattr(JsonSchemaVersion, ver))
+                    base = deserialization_schema(tp, additional_properties=ap, with_schema=False)
+                except Exception as e: hist["schema-exc:" + type(e).__name__] += 1; continue
+                reqs.append({"id": len(reqs), "op": "schema07", "ap": ap, "keeps_prefix_items": False, "ty": t.lean, "data": [py_proto(d) for d in data]})
+                meta.append((t, tp, ap, ver, real, data, base))
     ms = model(reqs) if ctx["driver_ok"] else [None] * len(reqs)
     kbad = kcmp = 0
     for (t, tp, ap, extra, real, data, base), mo in zip(meta, ms):
